@@ -316,10 +316,11 @@ func findCrashers(cfg Cfg, gen string, idx lineIndex) map[string]string {
 
 func evalProg(p progenum.Prog, file *gl.File, rejected map[string]string, goRes map[int]string, vecs []progenum.Vector, cfg Cfg) result {
 	r := result{prog: p}
-	if why, ok := rejected["DECL:"+p.Form.ID]; ok {
-		rejected[p.Name] = "(helper declaration) " + why
+	why, ok := rejected[p.Name]
+	if hw, hok := rejected["DECL:"+p.Form.ID]; hok && !ok { // read-only: evalProg runs in parallel
+		why, ok = "(helper declaration) "+hw, true
 	}
-	if why, ok := rejected[p.Name]; ok {
+	if ok {
 		r.reject = why
 		r.kind, r.msg = "rejected:"+normalize(why), "goose rejects the declaration: "+why
 		return r
